@@ -3,6 +3,7 @@ Correspondence op for C16: builder call sequences, the buffer compared byte for 
 -/
 import Sb.Corr.Traj
 import Sb.Model.Builder
+import Sb.Spec.Trajectory
 
 namespace Sb.Corr
 open Sb.Builder Sb.Poly
@@ -22,6 +23,45 @@ structure BRun where
   err : Option String := none
   ops : Nat := 0
   rejected : Nat := 0
+  /-- what the successful calls since the last (re)start asked for: cumulative time in ms, the point given,
+  and whether the call lasted longer than 0 ms -/
+  pts : List (Nat × Vec4 × Bool) := []
+  cum : Nat := 0
+  startGiven : Option Vec4 := none
+
+/-- yaw difference modulo 360, in (-180, 180] -/
+def yawDiff (a b : Rat) : Rat :=
+  let d := a - b
+  let k : Int := (d / 360 + 1 / 2).floor
+  d - 360 * (k : Rat)
+
+/-- within one quantum per coordinate, yaw within a tenth of a degree (plus the rounding of `* 10.0f`) modulo 360 -/
+def nearPoint (scale : Nat) (got want : Vec4) : Bool :=
+  decide (absR (got.x - want.x) ≤ scale) && decide (absR (got.y - want.y) ≤ scale) &&
+  decide (absR (got.z - want.z) ≤ scale) && decide (absR (yawDiff got.yaw want.yaw) ≤ 1 / 10 + 1 / 1000)
+
+/-- The statement of C16 evaluated on the bytes handed over by `finish`, read with the format specification
+(`Sb.Spec`): the trajectory lasts the sum of the requested durations, consists of straight segments, and at the
+cumulative time of every successful call (that lasted longer than 0 ms) it is within one quantum of the point
+given to that call. -/
+def contractErr (bytes : Bytes) (scale : Nat) (startGiven : Option Vec4) (pts : List (Nat × Vec4 × Bool)) (cum : Nat) :
+    Option String :=
+  match Spec.segmentsOf bytes with
+  | none => some "the finished trajectory has no header"
+  | some (h, segs) =>
+    if Spec.totalMs segs ≠ cum then some s!"the finished trajectory lasts {Spec.totalMs segs} ms, the calls asked for {cum} ms"
+    else if segs.any (fun sg => sg.ctrl.x.length > 2 ∨ sg.ctrl.y.length > 2 ∨ sg.ctrl.z.length > 2 ∨ sg.ctrl.yaw.length > 2) then
+      some "the finished trajectory contains a segment that is not a straight line"
+    else
+      let bad := pts.find? fun (T, want, pos) =>
+        pos && !nearPoint scale (Spec.posAt segs h.start 0 ((T : Rat) / 1000)) want
+      match bad with
+      | some (T, want, _) =>
+        some s!"at {T} ms the finished trajectory is at {fmtVec (Spec.posAt segs h.start 0 ((T : Rat) / 1000))}, the call that ends there gave {fmtVec want} (quantum {scale})"
+      | none =>
+        match startGiven with
+        | some sp => if nearPoint scale h.start sp then none else some s!"the finished trajectory starts at {fmtVec h.start}, set-start gave {fmtVec sp}"
+        | none => none
 
 def stepBld (st : BRun) (q : String × String) : BRun :=
   if st.err.isSome then st else
@@ -35,17 +75,17 @@ def stepBld (st : BRun) (q : String × String) : BRun :=
       match a.map String.toNat? with
       | [some sc, some fl] =>
         match init sc fl with
-        | .ok b => if parts = ["0", bytesToHex b.buf] then { st with b := some b, ops := st.ops + 1 } else { st with err := some s!"init: model 0:{bytesToHex b.buf} impl {ans}" }
+        | .ok b => if parts = ["0", bytesToHex b.buf] then { st with b := some b, ops := st.ops + 1, pts := [], cum := 0, startGiven := none } else { st with err := some s!"init: model 0:{bytesToHex b.buf} impl {ans}" }
         | .error e => if parts.head? = some (toString e.code) then { st with b := none, rejected := st.rejected + 1 } else { st with err := some s!"init: model rc {e.code} impl {ans}" }
       | _ => { st with err := some "bad init args" }
     else
       match st.b with
       | none => st
       | some b =>
-        let check (r : R Builder) (what : String) : BRun :=
+        let check (r : R Builder) (what : String) (upd : BRun → BRun := id) : BRun :=
           match r with
           | .ok b' =>
-            if parts = ["0", bytesToHex b'.buf] then { st with b := some b', ops := st.ops + 1 }
+            if parts = ["0", bytesToHex b'.buf] then upd { st with b := some b', ops := st.ops + 1 }
             else { st with err := some s!"{what}: model 0:{bytesToHex b'.buf} impl {ans}" }
           | .error e =>
             -- a failed call must leave the builder exactly as it was
@@ -61,15 +101,17 @@ def stepBld (st : BRun) (q : String × String) : BRun :=
           | _ => { st with err := some "bad init args" }
         else if k = 'S' then
           match vecOf a with
-          | some v => check (setStart b v) call
+          | some v => check (setStart b v) call (fun r => { r with startGiven := some v })
           | none => { st with err := some "bad vector" }
         else if k = 'A' then
           match vecOf a, (a.getD 4 "").toNat? with
           | some v, some ms => check (appendLine b v ms) call
+              (fun r => { r with cum := r.cum + ms, pts := r.pts ++ [(r.cum + ms, v, decide (ms > 0))] })
           | _, _ => { st with err := some "bad append args" }
         else if k = 'H' then
           match (a.getD 0 "").toNat? with
           | some ms => check (holdFor b ms) call
+              (fun r => { r with cum := r.cum + ms, pts := r.pts ++ [(r.cum + ms, b.last, decide (ms > 0))] })
           | none => { st with err := some "bad hold args" }
         else if k = 'F' then
           let (bytes, b') := finish b
@@ -109,7 +151,10 @@ def stepBld (st : BRun) (q : String × String) : BRun :=
               match probe (.fin 0) pos0, probe .pinf posEnd with
               | some m, _ => { st with err := some s!"finish (t=0): {m}" }
               | _, some m => { st with err := some s!"finish (t=end): {m}" }
-              | none, none => { st with b := some b', ops := st.ops + 1 }
+              | none, none =>
+                match contractErr bytes b.scale st.startGiven st.pts st.cum with
+                | some m => { st with err := some s!"finish: {m}" }
+                | none => { st with b := some b', ops := st.ops + 1, pts := [], cum := 0, startGiven := none }
           | _ => { st with err := some s!"finish: model 0:{bytesToHex bytes}:{bytesToHex b'.buf}:{dur} impl {ans}" }
         else { st with err := some s!"unknown call {call}" }
 
